@@ -71,7 +71,7 @@ impl Property for C16 {
         vec!["orders_run", "stacks_with_disagreeing_layers", "tree_then_file_on_same_directory", "two_tree_verdicts_same_directory", "upstream_discarded_entry_observed_downstream", "distinct_orders_2plus"]
     }
     fn decode(&self, t: &mut Tape) -> Case {
-        let tree = gen_tree(t, &TreeCfg::default());
+        let tree = gen_tree(t, &TreeCfg { links: true, ..TreeCfg::default() });
         let base = if t.chance(40) { gen_base(t, &tree) } else { Base::Abs };
         let under = gen_under(t, &tree, &base);
         let mut layers = gen_layers(t, &tree, 1);
@@ -166,6 +166,14 @@ impl Property for C16 {
             if (!g.prefix.is_empty() && !base_abs.join(&g.prefix).is_dir()) || g.prefix.split('/').any(|c| c == "." || c == "..") {
                 st.count("skipped_prefix");
                 return Ok(());
+            }
+            let mut p = base_abs.clone();
+            for c in g.prefix.split('/').filter(|c| !c.is_empty()) {
+                p = p.join(c);
+                if std::fs::symlink_metadata(&p).map(|m| m.file_type().is_symlink()).unwrap_or(false) {
+                    st.count("skipped_prefix");
+                    return Ok(());
+                }
             }
         }
         let entries = underlying_entries(&base_abs, glob_rt.as_ref(), false, None);
